@@ -2,6 +2,7 @@
   C17 programs, part 2: lemmas shared by the six kind instances.
 -/
 import SLV.Refine.ArrProg1
+import SLV.Refine.ArrResume
 
 namespace SLV.MArr
 
@@ -35,6 +36,14 @@ theorem mrEnum_eq (size : List Nat) : mrEnum size = (lexList size, [none, none, 
       simp [drain, MultiRange.next]
   simp only [mrEnum, key, nextN_none]
   rfl
+
+/-- `indexes()` of the unlabelled family resumed after `k` calls of `next()` -/
+theorem mrResume_eq (size : List Nat) : MultiRange.resume size = specResume (lexList size) := by
+  funext k; rw [multirange_resume]; rfl
+
+/-- a labelled enumeration (list iterator over the `iproduct!` items) resumed after `k` calls of `next()` -/
+theorem listResume_eq (l : List (List Nat)) : listResume l = specResume l := by
+  funext k; exact slice_resume l k
 
 theorem U1.idx_eq (a : MArr1 Nat) : U1.idx a = U1.idx' a := by
   funext k
